@@ -152,6 +152,49 @@ func cmdCheck(args []string) int {
 			fns = append(fns, fn)
 		}
 	}
+	// sweep scopes: every function declared in the listed files
+	scopeKinds := map[*ssa.Function][]string{}
+	for _, sf := range e.specs.files {
+		for _, sc := range sf.Scopes {
+			if !hasTag(sc.Tags, *prop) {
+				continue
+			}
+			files := map[string]bool{}
+			for _, f := range sc.Files {
+				files[f] = true
+			}
+			for _, fn := range e.funcsByName {
+				root := fn
+				for root.Parent() != nil {
+					root = root.Parent()
+				}
+				if root.Pkg == nil || !inModule(root.Pkg.Pkg) || fn.Synthetic != "" || len(fn.Blocks) == 0 || !fn.Pos().IsValid() {
+					continue
+				}
+				if fn.Parent() != nil && onlyInlined(fn) {
+					continue // closure that is only deferred / called in place: checked where it is inlined
+				}
+				if !files[strings.TrimPrefix(e.fset.Position(fn.Pos()).Filename, e.repo+"/")] {
+					continue
+				}
+				skip := false
+				for _, ex := range sc.Except {
+					if strings.Contains(fn.String(), ex) {
+						skip = true
+					}
+				}
+				if skip {
+					continue
+				}
+				scopeKinds[fn] = append(scopeKinds[fn], sc.Kinds...)
+				if !seenFn[fn] {
+					seenFn[fn] = true
+					fns = append(fns, fn)
+				}
+			}
+		}
+	}
+	e.scopeKinds = scopeKinds
 	sort.Slice(fns, func(i, j int) bool { return fns[i].String() < fns[j].String() })
 
 	// ---- translate (worklist: callees whose contracts were used are verified too)
@@ -692,4 +735,43 @@ func (e *Engine) restrictedWriters(p string) []*ssa.Function {
 		}
 	}
 	return out
+}
+
+// onlyInlined: an anonymous function all of whose uses are a defer or a direct
+// call in its parent; such closures are inlined at those sites.
+func onlyInlined(fn *ssa.Function) bool {
+	p := fn.Parent()
+	if p == nil {
+		return false
+	}
+	found := false
+	for _, b := range p.Blocks {
+		for _, in := range b.Instrs {
+			mc, ok := in.(*ssa.MakeClosure)
+			if !ok || mc.Fn != fn {
+				continue
+			}
+			found = true
+			refs := mc.Referrers()
+			if refs == nil {
+				return false
+			}
+			for _, r := range *refs {
+				switch u := r.(type) {
+				case *ssa.DebugRef:
+				case *ssa.Defer:
+					if u.Call.Value != mc {
+						return false
+					}
+				case *ssa.Call:
+					if u.Call.Value != mc {
+						return false
+					}
+				default:
+					return false
+				}
+			}
+		}
+	}
+	return found
 }
